@@ -322,7 +322,8 @@ def rule_a4(repo):
                     builders.append(h)
                     todo.append((h, d + 1))
     for g in builders:
-        returned = {x.id for r in ast.walk(g.node) if isinstance(r, ast.Return) and r.value is not None for x in ast.walk(r.value) if isinstance(x, ast.Name)}
+        gflow = flow_of(g.node)
+        returned = {nm for r in ast.walk(g.node) if isinstance(r, ast.Return) and r.value is not None for nm in gflow.names_closure(r.value)}    # `exported = [res]; return exported`
         for n in ast.walk(g.node):
             if isinstance(n, ast.Assign) and isinstance(n.value, ast.Dict) and any(isinstance(t, ast.Name) and t.id in returned for t in n.targets) and \
                     any(isinstance(k, ast.Constant) and k.value == 'id' for k in n.value.keys):
